@@ -109,7 +109,7 @@ func okErr(b bool) string {
 type script struct {
 	inst     int
 	name     int
-	kind     byte // 'p' plain, 'd' delta, 'e' enrichment
+	kind     byte // 'p' plain, 'd' delta, 'e' enrichment, 'x' an object that is EnrichmentUpdater and DeltaUpdater
 	cfg      int  // 0 not Configurable, 1 Configure ok, 2 Configure fails
 	getOk    bool
 	fmode    int // 0 Unchanged iff prev == src, 1 error, 2 Unchanged, 3 changed
@@ -119,14 +119,15 @@ type script struct {
 	deleted  []int
 	storeOk  bool
 	ctxAware bool
+	cmode    int // Fetch returns a ReadCloser: 0 iff it succeeds, 1 always, 2 never
 
 	gate bool // Fetch blocks until the scenario's gate opens
 	spin int  // yields / short sleeps before each step
 }
 
 func (sc *script) decl() string {
-	return fmt.Sprintf("upd %d %d %c %d %s %d %d %s %s %s %s %s", sc.inst, sc.name, sc.kind, sc.cfg, b01(sc.getOk),
-		sc.fmode, sc.src, b01(sc.parseOk), csv(sc.vulns), csv(sc.deleted), b01(sc.storeOk), b01(sc.ctxAware))
+	return fmt.Sprintf("upd %d %d %c %d %s %d %d %s %s %s %s %s %d", sc.inst, sc.name, sc.kind, sc.cfg, b01(sc.getOk),
+		sc.fmode, sc.src, b01(sc.parseOk), csv(sc.vulns), csv(sc.deleted), b01(sc.storeOk), b01(sc.ctxAware), sc.cmode)
 }
 
 // fetchOutcome mirrors Script.fetch of the model.
@@ -146,13 +147,52 @@ func (sc *script) fetchOutcome(prev int, dead bool) (string, int) {
 	return "ok", sc.src
 }
 
+// closerGiven mirrors Script.closer of the model.
+func (sc *script) closerGiven(res string) bool {
+	switch sc.cmode {
+	case 1:
+		return true
+	case 2:
+		return false
+	}
+	return res == "ok"
+}
+
+// isEnrich: the manager must treat the updater as an EnrichmentUpdater.
+func (sc *script) isEnrich() bool { return sc.kind == 'e' || sc.kind == 'x' }
+
 type body struct {
-	inst   int
-	closed bool
+	w      *world
+	wk     *worker
+	closes int
 }
 
 func (b *body) Read(p []byte) (int, error) { return 0, io.EOF }
-func (b *body) Close() error               { b.closed = true; return nil }
+
+// Close is the deferred vulnDB.Close() of driveUpdater.
+func (b *body) Close() error {
+	w := b.w
+	w.mu.Lock()
+	defer w.mu.Unlock()
+	wk := w.worker[hx.GoID()]
+	if wk == nil || wk != b.wk {
+		w.stray("close")
+		return nil
+	}
+	b.closes++
+	if b.closes > 1 {
+		w.fail("", fmt.Sprintf("fetched-contents-closed-%d-times run=%d updater=%s", b.closes, wk.run, nameStr(wk.sc.name)))
+	}
+	if wk.statusCalls > 0 {
+		w.fail("", fmt.Sprintf("fetched-contents-closed-after-the-status-was-recorded run=%d updater=%s", wk.run, nameStr(wk.sc.name)))
+	}
+	if wk.doneSeen {
+		w.fail("", fmt.Sprintf("fetched-contents-closed-after-lock-release run=%d updater=%s", wk.run, nameStr(wk.sc.name)))
+	}
+	w.emit(wk, "close", "ok")
+	w.r.Count("close")
+	return nil
+}
 
 type base struct {
 	w  *world
@@ -215,10 +255,58 @@ func (e *enrichU) ParseEnrichment(ctx context.Context, rc io.ReadCloser) ([]driv
 	return rs, nil
 }
 
-func (b *base) configure(ctx context.Context) error {
-	b.w.mu.Lock()
-	b.w.configured[b.sc.inst]++
-	b.w.mu.Unlock()
+// bothU is an EnrichmentUpdater that also has a DeltaParse method: the manager
+// must drive it as an enrichment updater; DeltaParse, Fetch and Parse must
+// not be called.
+type bothU struct{ enrichU }
+
+func (x *bothU) DeltaParse(ctx context.Context, rc io.ReadCloser) ([]*claircore.Vulnerability, []string, error) {
+	x.w.mu.Lock()
+	x.w.fail("", fmt.Sprintf("DeltaParse-called-on-an-enrichment-updater updater=%s", nameStr(x.sc.name)))
+	x.w.mu.Unlock()
+	return nil, nil, errors.New("unexpected")
+}
+
+// cfgOf identifies the ConfigUnmarshaler the manager passed: the harness's
+// own ones write their id into an *int, noopConfig leaves it 0.
+func cfgOf(cfg driver.ConfigUnmarshaler) int {
+	if cfg == nil {
+		return -1
+	}
+	got := 0
+	if err := cfg(&got); err != nil {
+		return -2
+	}
+	return got
+}
+
+func mkCfg(id int) driver.ConfigUnmarshaler {
+	return func(v interface{}) error {
+		if p, ok := v.(*int); ok {
+			*p = id
+		}
+		return nil
+	}
+}
+
+func (b *base) configure(ctx context.Context, cfg driver.ConfigUnmarshaler, c *http.Client) error {
+	w := b.w
+	id := cfgOf(cfg)
+	w.mu.Lock()
+	w.configured[b.sc.inst]++
+	if rs := w.runOfGoroutine(hx.GoID(), true); rs != nil {
+		rs.cfgCalls = append(rs.cfgCalls, [2]int{b.sc.inst, id})
+		if want := rs.view.cfgID(false, b.sc.name); want != id {
+			w.fail("", fmt.Sprintf("updater-configured-with-the-wrong-config updater=%s got=%d want=%d", nameStr(b.sc.name), id, want))
+		}
+		if c != w.client {
+			w.fail("", fmt.Sprintf("updater-configured-with-another-http-client updater=%s", nameStr(b.sc.name)))
+		}
+	} else {
+		w.stray("configure")
+	}
+	w.r.Count(fmt.Sprintf("configure:updater:cfg%d", min(id, 1)))
+	w.mu.Unlock()
 	if b.sc.cfg == 2 {
 		return errors.New("scripted configure failure")
 	}
@@ -228,15 +316,19 @@ func (b *base) configure(ctx context.Context) error {
 type cfgPlainU struct{ plainU }
 type cfgDeltaU struct{ deltaU }
 type cfgEnrichU struct{ enrichU }
+type cfgBothU struct{ bothU }
 
-func (u *cfgPlainU) Configure(ctx context.Context, _ driver.ConfigUnmarshaler, _ *http.Client) error {
-	return u.configure(ctx)
+func (u *cfgPlainU) Configure(ctx context.Context, cfg driver.ConfigUnmarshaler, c *http.Client) error {
+	return u.configure(ctx, cfg, c)
 }
-func (u *cfgDeltaU) Configure(ctx context.Context, _ driver.ConfigUnmarshaler, _ *http.Client) error {
-	return u.configure(ctx)
+func (u *cfgDeltaU) Configure(ctx context.Context, cfg driver.ConfigUnmarshaler, c *http.Client) error {
+	return u.configure(ctx, cfg, c)
 }
-func (u *cfgEnrichU) Configure(ctx context.Context, _ driver.ConfigUnmarshaler, _ *http.Client) error {
-	return u.configure(ctx)
+func (u *cfgEnrichU) Configure(ctx context.Context, cfg driver.ConfigUnmarshaler, c *http.Client) error {
+	return u.configure(ctx, cfg, c)
+}
+func (u *cfgBothU) Configure(ctx context.Context, cfg driver.ConfigUnmarshaler, c *http.Client) error {
+	return u.configure(ctx, cfg, c)
 }
 
 var (
@@ -246,6 +338,8 @@ var (
 	_ driver.Configurable      = (*cfgPlainU)(nil)
 	_ driver.Configurable      = (*cfgDeltaU)(nil)
 	_ driver.Configurable      = (*cfgEnrichU)(nil)
+	_ driver.DeltaUpdater      = (*bothU)(nil)
+	_ driver.EnrichmentUpdater = (*bothU)(nil)
 )
 
 func (w *world) mkUpdater(sc *script) driver.Updater {
@@ -259,6 +353,10 @@ func (w *world) mkUpdater(sc *script) driver.Updater {
 		return &deltaU{b}
 	case sc.kind == 'd':
 		return &cfgDeltaU{deltaU{b}}
+	case sc.kind == 'x' && sc.cfg == 0:
+		return &bothU{enrichU{b}}
+	case sc.kind == 'x':
+		return &cfgBothU{bothU{enrichU{b}}}
 	case sc.cfg == 0:
 		return &enrichU{b}
 	}
@@ -281,8 +379,14 @@ func (w *world) fetch(ctx context.Context, sc *script, fp driver.Fingerprint, me
 	// the statement, directly: the fingerprint handed to Fetch is the one of
 	// the latest stored operation of this updater (and kind), right now
 	kind := driver.VulnerabilityKind
-	if sc.kind == 'e' {
+	if sc.isEnrich() {
 		kind = driver.EnrichmentKind
+	}
+	if (method == 'e') != sc.isEnrich() {
+		w.fail("", fmt.Sprintf("wrong-fetch-method updater=%s kind=%c method=%c", nameStr(sc.name), sc.kind, method))
+	}
+	if wk.fetched {
+		w.fail("", fmt.Sprintf("updater-fetched-twice run=%d updater=%s", wk.run, nameStr(sc.name)))
 	}
 	if want := w.store.latest(kind, nameStr(sc.name)); want != fp {
 		w.fail("", fmt.Sprintf("fetch-not-given-latest-fingerprint updater=%s kind=%c got=%q latest-stored=%q", nameStr(sc.name), sc.kind, fp, want))
@@ -290,25 +394,25 @@ func (w *world) fetch(ctx context.Context, sc *script, fp driver.Fingerprint, me
 	wk.fetched = true
 	wk.fetchRes = res
 	wk.newFP = nfp
-	w.emit(wk, "fetch", fmt.Sprintf("fetch %c %d %s %d", method, prev, res, nfp))
-	w.r.Count("fetch:" + res)
+	given := sc.closerGiven(res)
+	w.emit(wk, "fetch", fmt.Sprintf("fetch %c %d %s %d c%s", method, prev, res, nfp, b01(given)))
+	w.r.Count(fmt.Sprintf("fetch:%c:%s:closer%s", sc.kind, res, b01(given)))
+	var rc io.ReadCloser
+	if given {
+		wk.body = &body{w: w, wk: wk}
+		rc = wk.body
+	}
 	switch res {
 	case "ok":
-		wk.body = &body{inst: sc.inst}
-		return wk.body, fpStr(nfp), nil
+		return rc, fpStr(nfp), nil
 	case "unch":
-		var rc io.ReadCloser
-		if sc.inst%3 == 0 {
-			wk.body = &body{inst: sc.inst}
-			rc = wk.body
-		}
 		if sc.inst%2 == 1 {
 			return rc, fpStr(nfp), fmt.Errorf("source says: %w", driver.Unchanged)
 		}
 		return rc, fpStr(nfp), driver.Unchanged
 	}
 	wk.failed = true
-	return nil, fpStr(nfp), errors.New("scripted fetch failure")
+	return rc, fpStr(nfp), errors.New("scripted fetch failure")
 }
 
 func (w *world) parse(ctx context.Context, sc *script, rc io.ReadCloser, method byte) bool {
@@ -321,8 +425,21 @@ func (w *world) parse(ctx context.Context, sc *script, rc io.ReadCloser, method 
 	}
 	dead := w.runs[wk.run].cancelled
 	ok := sc.parseOk && !(sc.ctxAware && dead)
-	if b, isBody := rc.(*body); !isBody || b != wk.body || wk.body == nil {
+	if wk.body == nil {
+		if rc != nil {
+			w.fail("", fmt.Sprintf("parse-not-given-the-fetched-contents updater=%s (fetch returned no contents)", nameStr(sc.name)))
+		}
+	} else if b, isBody := rc.(*body); !isBody || b != wk.body {
 		w.fail("", fmt.Sprintf("parse-not-given-the-fetched-contents updater=%s", nameStr(sc.name)))
+	} else if b.closes > 0 {
+		w.fail("", fmt.Sprintf("parse-given-closed-contents updater=%s", nameStr(sc.name)))
+	}
+	wantM := map[byte]byte{'p': 'p', 'd': 'd', 'e': 'e', 'x': 'e'}[sc.kind]
+	if method != wantM {
+		w.fail("", fmt.Sprintf("wrong-parse-method updater=%s kind=%c method=%c", nameStr(sc.name), sc.kind, method))
+	}
+	if wk.parsed {
+		w.fail("", fmt.Sprintf("updater-parsed-twice run=%d updater=%s", wk.run, nameStr(sc.name)))
 	}
 	wk.parsed = true
 	wk.parseOk = ok
@@ -330,7 +447,7 @@ func (w *world) parse(ctx context.Context, sc *script, rc io.ReadCloser, method 
 		wk.failed = true
 	}
 	w.emit(wk, "parse", fmt.Sprintf("parse %c %s", method, okErr(ok)))
-	w.r.Count("parse:" + okErr(ok))
+	w.r.Count(fmt.Sprintf("parse:%c:%s", sc.kind, okErr(ok)))
 	return ok
 }
 
@@ -390,13 +507,17 @@ func (s *store) GetUpdateOperations(ctx context.Context, kind driver.UpdateKind,
 	if len(names) == 1 {
 		nm = nameNum(names[0])
 	}
+	if wk.inDrive {
+		w.fail("", fmt.Sprintf("updater-driven-twice run=%d updater=%s", wk.run, nameStr(sc.name)))
+	}
 	wk.inDrive = true
+	wk.getOk = ok
 	w.enterDrive(wk)
 	if !ok {
 		wk.failed = true
 	}
 	w.emit(wk, "getops", fmt.Sprintf("getops %s %d %s", k, nm, okErr(ok)))
-	w.r.Count("getops:" + okErr(ok))
+	w.r.Count(fmt.Sprintf("getops:%c:%s", sc.kind, okErr(ok)))
 	if !ok {
 		return nil, errors.New("scripted GetUpdateOperations failure")
 	}
@@ -500,8 +621,13 @@ func (s *store) RecordUpdaterStatus(ctx context.Context, name string, _ time.Tim
 	}
 	wk.statusCalls++
 	wk.statusFailed = uerr != nil
+	wk.statusName = nameNum(name)
+	wk.statusFP = fpNum(fp)
+	if wk.body != nil && wk.body.closes == 0 {
+		w.fail("", fmt.Sprintf("status-recorded-before-the-fetched-contents-were-closed run=%d updater=%s", wk.run, nameStr(wk.sc.name)))
+	}
 	w.emit(wk, "status", fmt.Sprintf("status %d %d %s", nameNum(name), fpNum(fp), st))
-	w.r.Count("status:" + st)
+	w.r.Count("status:" + wk.outcome() + ":" + st)
 	w.leaveDrive(wk)
 	if wk.sc.ctxAware && w.runs[wk.run].cancelled {
 		return context.Canceled
@@ -514,14 +640,19 @@ func (s *store) RecordUpdaterSetStatus(ctx context.Context, set string, _ time.T
 	g := hx.GoID()
 	w.mu.Lock()
 	defer w.mu.Unlock()
-	if r, ok := w.runOfGo[g]; ok {
-		w.runs[r].setStatus++
+	if rs := w.runOfGoroutine(g, true); rs != nil {
+		rs.setStatus++
 		if set != "RHEL" {
 			w.fail("", "set-status-recorded-under-unexpected-name "+set)
 		}
 	} else {
 		w.stray("setstatus")
 	}
+	if w.sc.setFail {
+		w.r.Count("setstatus:err")
+		return errors.New("scripted RecordUpdaterSetStatus failure")
+	}
+	w.r.Count("setstatus:ok")
 	return nil
 }
 
@@ -529,23 +660,36 @@ func (s *store) GC(ctx context.Context, keep int) (int64, error) {
 	w := s.w
 	g := hx.GoID()
 	w.mu.Lock()
-	if r, ok := w.runOfGo[g]; ok && w.gcHook != nil {
+	if rs := w.runOfGoroutine(g, false); rs != nil && w.gcHook != nil {
 		hook := w.gcHook
 		w.mu.Unlock()
-		hook(r)
+		hook(rs.id)
 		w.mu.Lock()
 	}
 	defer w.mu.Unlock()
-	if r, ok := w.runOfGo[g]; ok {
-		rs := w.runs[r]
+	if rs := w.runOfGoroutine(g, false); rs != nil {
+		r := rs.id
 		rs.gcCalls++
-		w.op(fmt.Sprintf("gc %d", r), "ok")
+		w.op(fmt.Sprintf("gc %d", r), fmt.Sprintf("gc %d", keep))
 		// garbage collection belongs after the updaters: none may be in flight
 		if rs.active > 0 {
 			w.fail("", fmt.Sprintf("gc-while-updaters-in-flight run=%d in-flight=%d", r, rs.active))
 		}
+		if !rs.drainedSeen {
+			w.fail("", fmt.Sprintf("gc-before-the-final-wait run=%d", r))
+		}
+		if keep != rs.view.retention {
+			w.fail("", fmt.Sprintf("gc-called-with-keep=%d but-retention=%d run=%d", keep, rs.view.retention, r))
+		}
+		if rs.gcCalls > 1 {
+			w.fail("", fmt.Sprintf("gc-ran-%d-times-in-one-run run=%d", rs.gcCalls, r))
+		}
 	} else {
 		w.stray("gc")
+	}
+	if w.sc.gcFail {
+		w.r.Count("gc:store-error")
+		return 0, errors.New("scripted GC failure")
 	}
 	return 0, nil
 }
